@@ -245,6 +245,10 @@ func (d Doc) AllTokens(field string) []string {
 // ---------------------------------------------------------------- mapping
 
 // WorldMapping is the static mapping of the small world.
+// worldDocValues: whether the world mapping persists doc values.  Without them scorch answers
+// sorts and facets from a per-segment cache it builds by un-inverting the term dictionary.
+var worldDocValues = true
+
 func WorldMapping() *mapping.IndexMappingImpl {
 	m := bleve.NewIndexMapping()
 	dm := bleve.NewDocumentStaticMapping()
@@ -253,7 +257,7 @@ func WorldMapping() *mapping.IndexMappingImpl {
 		fm.Index = true
 		fm.IncludeTermVectors = true
 		fm.IncludeInAll = false
-		fm.DocValues = true
+		fm.DocValues = worldDocValues
 		return fm
 	}
 	t := mk(bleve.NewTextFieldMapping())
